@@ -64,3 +64,8 @@ add('C10', 'SYS', 'model_checking',
     'BFS over histories with command comments, reviews, CI verdicts and declines; on every job transition the same evaluation is delivered four times on the long-lived instance: the fourth must change nothing, no robot message may appear twice in a row, command executions may not exceed command comments; independence from earlier jobs by replaying explored paths in fresh processes (keys and statuses identical).',
     'mock git host; one or two pull requests; jobs enqueued by an evaluation are processed right after it.',
     'explicit-state BFS + repeated-delivery deviation on every transition', 'DESIGN.md section 5 C10')
+
+add('C16', 'SYS+ENUM', 'fault_enumeration',
+    '(a) for every shell command index of every kind of job (scripted histories on a credentialed clone URL): the command fails and hangs while printing the URL; all channels (formatted log records with tracebacks at DEBUG and INFO, fd 1/2, job status/details/json, /api/jobs payload, status page, comments) are searched for the password in raw and quoted forms. (b) GitHub password and App flows through a scripted HTTP session with one misbehaving endpoint at a time; log, stdout, stderr and exception text searched for password, header values, JWT and installation token.',
+    'fault injection keeps the original command line (behaviour comes from an environment variable) so a URL is on the command line only if the real command has it; mock git host for (a), scripted requests.Session.request for (b).',
+    'exhaustive single-fault enumeration on the real implementation', 'DESIGN.md section 5 C16')
